@@ -151,6 +151,31 @@ fn cases(tier: Tier) -> &'static Vec<Case> {
                 }
             }
         }
+        // the connection-ending request has a body of which the client has sent only a part (or
+        // nothing) and the application answers without reading it: the answer is the last
+        // response, so the server closes its sending side at once - the client, which is
+        // waiting for that end-of-stream, must not have to give up first
+        for (ver, cv) in [("1.1", Some("close")), ("1.1", Some("keep-alive, close")), ("1.0", None), ("1.0", Some("close"))] {
+            let conn = cv.map(|c| format!("Connection: {}\r\n", c)).unwrap_or_default();
+            let bodies: Vec<(&str, String, Vec<u8>)> = vec![
+                ("cl200000-sent800", "Content-Length: 200000\r\n".into(), payload(800)),
+                ("cl200000-sent0", "Content-Length: 200000\r\n".into(), vec![]),
+                ("cl70000-sent1025", "Content-Length: 70000\r\n".into(), payload(1025)),
+                ("chunked-unterminated", "Transfer-Encoding: chunked\r\n".into(), b"5\r\nhello\r\n".to_vec()),
+                ("expect-cl5-sent0", "Expect: 100-continue\r\nContent-Length: 5\r\n".into(), vec![]),
+            ];
+            for (bl, framing, sent) in bodies {
+                for before in 0..2 {
+                    let mut b = Vec::new();
+                    for i in 0..before {
+                        b.extend_from_slice(&get(&format!("/k{}", i)));
+                    }
+                    b.extend_from_slice(format!("POST /e HTTP/{}\r\nHost: t\r\n{}{}\r\n", ver, conn, framing).as_bytes());
+                    b.extend_from_slice(&sent);
+                    v.push(Case { class: format!("ending-request-body-not-sent:{}", bl), bytes: b, half_close: false, deferred: false });
+                }
+            }
+        }
         // the decision for each atom after a long history of plain exchanges (a connection must
         // not be ended, nor kept, because of how much it has carried)
         for h in history_lengths(deep(tier)) {
@@ -208,6 +233,9 @@ fn class_from_stream(bytes: &[u8]) -> String {
     "http1.1-connection-absent".into()
 }
 
+/// clauses of the shared feature product (props/product.rs) that belong to this property
+const PRODUCT_CLAUSES: &[&str] = &["no-close", "early-close"];
+
 impl Check for C12 {
     fn id(&self) -> &'static str {
         "C12"
@@ -216,27 +244,37 @@ impl Check for C12 {
         "exploration"
     }
     fn n_items(&self, tier: Tier) -> u64 {
-        cases(tier).len() as u64
+        cases(tier).len() as u64 + crate::props::product::n_items(tier)
     }
     fn chunk(&self, _tier: Tier) -> u64 {
         16
     }
     fn run_item(&self, idx: u64, tier: Tier, acc: &mut Acc) {
+        let base = cases(tier).len() as u64;
+        if idx >= base {
+            crate::props::product::run_item(idx - base, tier, acc, PRODUCT_CLAUSES);
+            return;
+        }
         let c = &cases(tier)[idx as usize];
         let sc = scenario(c);
         let class = c.class.clone();
         check_scenario(&sc, acc, &JudgeOpts::default(), true, &|f, _| std_key(f, &class), &|_| vec![]);
     }
     fn rule(&self, tier: Tier) -> String {
-        format!(
-            "version {{1.0, 1.1}} x Connection header {:?} at every position of a pipeline of 1..{} requests x following bytes {{nothing, a further complete request, garbage}} x client half-closing afterwards or not x application answering immediately or on a later signal; {} conversations; token-based reference model: requests after the connection-ending one are never delivered, the client sees exactly the answers of the received requests then end-of-stream; otherwise the connection stays open; after a client half-close everything received is answered, then end-of-stream || history family: EVERY pipeline of 2..{} requests over 10 (version, Connection) atoms {{2.0 absent/close (refused with 505, the connection goes on), 1.1 absent/keep-alive/close, 1.0 absent/keep-alive/'Keep-Alive, foo'/te/close}} x the same following bytes x half-close or not (the decision for a request is exercised after every kind of predecessor) || each atom after a history of 64 / 100 / 1024 (thorough: 19 lengths from 63 to 4097) answered exchanges x the same following bytes",
+        let own = format!(
+            "version {{1.0, 1.1}} x Connection header {:?} at every position of a pipeline of 1..{} requests x following bytes {{nothing, a further complete request, garbage}} x client half-closing afterwards or not x application answering immediately or on a later signal; {} conversations; token-based reference model: requests after the connection-ending one are never delivered, the client sees exactly the answers of the received requests then end-of-stream; otherwise the connection stays open; after a client half-close everything received is answered, then end-of-stream || history family: EVERY pipeline of 2..{} requests over 10 (version, Connection) atoms {{2.0 absent/close (refused with 505, the connection goes on), 1.1 absent/keep-alive/close, 1.0 absent/keep-alive/'Keep-Alive, foo'/te/close}} x the same following bytes x half-close or not (the decision for a request is exercised after every kind of predecessor) || connection-ending requests {{1.1 close, 1.0}} whose body (Content-Length 70000 / 200000, chunked, Expect) the client has sent only in part or not at all, answered without reading: end-of-stream must follow the answer while the client is still waiting || each atom after a history of 64 / 100 / 1024 (thorough: 19 lengths from 63 to 4097) answered exchanges x the same following bytes",
             CONN_VALUES, if deep(tier) { 4 } else { 3 }, cases(tier).len(), if deep(tier) { 4 } else { 3 }
-        )
+        );
+        format!("{} || {} {:?}", own, crate::props::product::RULE, PRODUCT_CLAUSES)
     }
     fn assumptions(&self) -> Vec<String> {
         vec!["Connection tokens that merely contain close/upgrade/keep-alive as a substring of another token, and repeated Connection headers, are not generated (not pinned down by the statement)".into()]
     }
     fn replay(&self, replay: &Value, acc: &mut Acc) {
+        if crate::props::product::is_product_replay(replay) {
+            crate::props::product::replay(replay, acc, PRODUCT_CLAUSES);
+            return;
+        }
         let sc = scenario_from_json(&replay["scenario"]);
         let class = class_from_stream(&client_stream(&sc, 0).bytes);
         replay_scenario(replay, acc, &JudgeOpts::default(), &|f, _| std_key(f, &class), &|_| vec![]);
